@@ -133,6 +133,14 @@ func execScenario(env *hx.Env, files hx.Files, sc cliScenario, identical string)
 		// an output whose extension is ".log": "<output minus extension>.log" is the output itself, so the log
 		// has to go somewhere else (LogAbs stays empty: any other *.log file next to the output is accepted)
 		outArg = filepath.Join(filepath.Dir(spelled), "other_name.log")
+	case "is-input-alias":
+		// the setup file named as the output through another spelling of its directory (a symbolic link next to it):
+		// it is the setup file all the same and must never be modified
+		_ = os.Symlink(pkgDir, filepath.Join(filepath.Dir(pkgDir), "alias-of-pkg"))
+		outArg = filepath.Join(filepath.Dir(filepath.Dir(spelled)), "alias-of-pkg", filepath.Base(spelled))
+		if !filepath.IsAbs(spelled) && filepath.Dir(spelled) == "." {
+			outArg = filepath.Join("..", "alias-of-pkg", filepath.Base(spelled))
+		}
 	case "is-input":
 		// the setup file itself named as the output: it must never be modified, so the run cannot succeed
 		outArg = spelled
@@ -157,7 +165,7 @@ func execScenario(env *hx.Env, files hx.Files, sc cliScenario, identical string)
 	if r.LogAbs == r.OutAbs {
 		r.LogAbs = ""
 	}
-	if sc.OutKind != "is-dir" && sc.OutKind != "missing-dir" && sc.OutKind != "is-input" {
+	if sc.OutKind != "is-dir" && sc.OutKind != "missing-dir" && sc.OutKind != "is-input" && sc.OutKind != "is-input-alias" {
 		switch sc.Pre {
 		case "other":
 			_ = os.WriteFile(r.OutAbs, []byte("package home\n\n// stale content of an earlier run\nvar staleMarker = 1\n"), 0o644)
